@@ -218,6 +218,20 @@ class Env:
             self.failed.append(label)
         return ok
 
+    def same(self, A, B):
+        """are two arrays equal for every value on this path?  (no obligation recorded)"""
+        if self.mode == "sym":
+            d = symx.neq_terms(A, B)
+            if not d:
+                return True
+            r = self.c._check_fresh(z3.Or(d), *self.c.lazy) if self.c.lazy else self.c._check(z3.Or(d))
+            if r == "unknown":
+                raise symx.Inconclusive("array comparison undecided")
+            return r == "unsat"
+        A = np.asarray(A, dtype=float)
+        B = np.asarray(B, dtype=float)
+        return A.shape == B.shape and bool(np.allclose(A, B, rtol=1e-7, atol=1e-9, equal_nan=True))
+
     def prove(self, cond, label, info=None):
         if self.mode == "sym":
             return self.c.prove(cond, label, info)
